@@ -215,6 +215,14 @@ pub fn decode_regular(rsm: RawSourceMap) -> Result<SourceMap> {
 
             let is_range = rmi.get(line_index).map(|v| *v).unwrap_or_default();
 
+            // a token without a source has no original position: do not leak the
+            // running state into it, or equal tokens stop comparing equal
+            let (src_line, src_col) = if src == !0 {
+                (0, 0)
+            } else {
+                (src_line, src_col)
+            };
+
             tokens.push(RawToken {
                 dst_line: dst_line as u32,
                 dst_col,
